@@ -52,7 +52,7 @@ SPEC = {
         'roundtrip_mpol_final', 'roundtrip_ppol_final', 'roundtrip_pd_final', 'roundtrip_ps_final', 'roundtrip_pdd_final',
         'roundtrip_vec_final', 'load_dmodel_final', 'isDbl_half', 'isDbl_one', 'isDbl_third',
         # consecutive loads on one stream: atomic each, failures sticky, sequences round-trip
-        'loadOn_good', 'loadSeq_failed', 'loadSeq_length', 'loadSeq_atomic', 'loadSeq_sticky', 'loadSeq_roundtrip',
+        'loadOn_good', 'loadSeq_failed', 'loadSeq_length', 'loadSeq_atomic', 'loadSeq_sticky', 'loadSeq_roundtrip', 'loadSeq_valid',
         # helpers one level down: what isProbability (dense / sparse) guarantees about any object a load returns
         'abs_excess_le', 'sparseRowOk_bounds', 'rowOk_bounds', 'loaded_dmodel_probabilities', 'loaded_smodel_probabilities',
         # finding C17-4 (writers inherit the caller's notation): witnesses on the model's printf %.17f
